@@ -15,7 +15,7 @@ class Checker:
     def __init__(self, unit, tier='quick', timeout_s=60, semantics='bv'):
         self.unit = unit; self.tier = tier; self.timeout_s = timeout_s; self.semantics = semantics
         self.obs = []; self.inconclusive = []; self.vacuity = []; self.functions = set(); self.paths = {}
-        self.queries = 0; self.solver_s = 0.0; self.solvers_used = {}; self._seen_mem = set(); self.slicing = True; self._varcache = {}; self._keep = []; self.nviol = 0; self.skipped = 0; self.max_violations = int(os.environ.get('VERIF_MAX_VIOLATIONS', '4'))
+        self.queries = 0; self.solver_s = 0.0; self.solvers_used = {}; self._seen_mem = set(); self.slicing = True; self._varcache = {}; self._keep = []; self.nviol = 0; self.skipped = 0; self.prefer = None; self.max_violations = int(os.environ.get('VERIF_MAX_VIOLATIONS', '4'))
         self._known = [f for f in load_known()[0]]; self.selfchecks = []; self.notes = []; self.errors = []
         self.t0 = time.time()
     # --- core
@@ -64,7 +64,7 @@ class Checker:
         self.queries += 1; self.solver_s += dt
         if info.get('solver', 'z3') != 'z3': self.solvers_used[info['solver']] = self.solvers_used.get(info['solver'], 0) + 1
         return r, model, dt, info
-    def prove(self, name, pc, claim, site=None, decode=None, replay=None, semantics=None, timeout_s=None, sample=None, tactic=None, kind='post'):
+    def prove(self, name, pc, claim, site=None, decode=None, replay=None, semantics=None, timeout_s=None, sample=None, tactic=None, kind='post', prefer=None):
         """claim must hold under pc. sat => counterexample (decoded, replayed)."""
         if self.nviol >= self.max_violations:
             # enough replayed, unlisted violations in this unit: the run already fails; remaining obligations are not attempted
@@ -73,6 +73,10 @@ class Checker:
         ob = {'name': name, 'site': site or name, 'status': r, 'time_s': round(dt, 3), 'semantics': semantics or self.semantics, 'kind': kind}
         if info.get('solver', 'z3') != 'z3': ob['solver'] = info['solver']
         ob['sample'] = sample if sample is not None else '%s [site %s; %d path constraints]' % (name, site or name, len(pc))
+        if r == 'sat' and (prefer or self.prefer):
+            # a counterexample exists: look for one that is convenient to replay (small sizes); the verdict does not depend on it
+            r2, m2, dt2, info2 = self._solve(list(pc) + list(prefer or self.prefer), [z3.Not(claim)], timeout_s, tactic)
+            if r2 == 'sat': m = m2
         if r == 'sat':
             try:
                 ob['witness'] = decode(m) if decode else {str(d): str(m[d]) for d in m.decls()[:40]}
